@@ -328,7 +328,10 @@ def build(cfg: dict, logdir: str):
             inits.append(pos)
         else:
             raise ValueError(init_kind)
-    if cfg.get("trace") == "default" and cfg.get("front_end", "hmc") == "hmc":
+    if cfg.get("trace") == "none":
+        trace_funcs = []
+        kw["trace_funcs"] = None  # documented: no traces; statistics are still recorded
+    elif cfg.get("trace") == "default" and cfg.get("front_end", "hmc") == "hmc":
         trace_funcs = [TraceFn("default", plan, system)]  # oracle side only: the argument is omitted
     else:
         trace_funcs = [TraceFn(k, plan, system) for k in (cfg.get("trace", ["pos"]) if cfg.get("trace") != "default" else ["pos"])]
